@@ -64,6 +64,18 @@ pub fn shrink(orig: &Trace, rule: R, budget: usize, unknown: &dyn Fn(&Violation)
             }
             chunk /= 2;
         }
+        // ---- simplify the clock's read step
+        for t in [0u128, 1] {
+            if execs >= budget || cur.read_step_ns <= t {
+                break;
+            }
+            let mut cand = cur.clone();
+            cand.read_step_ns = t;
+            if try_accept(cand, &mut cur, &mut idx, &mut detail, &mut execs) {
+                progress = true;
+                break;
+            }
+        }
         // ---- simplify the timeout
         for t in [0u128, 1, 1000] {
             if execs >= budget || cur.timeout_ns <= t {
